@@ -72,6 +72,7 @@ pub fn is_sys_index(prop: &str, index: u64) -> bool {
         "C08" => index % 40 == 17,
         "C04" => index % 40 == 17,
         "C09" => index % 60 == 23,
+        "C10" => index % 60 == 31,
         _ => false,
     }
 }
